@@ -169,6 +169,10 @@ pub struct World {
     /// in these worlds three in ten glyphs of the complete font are empty
     #[serde(default)]
     pub stale_base: bool,
+    /// forces the gvar data length of one glyph so that the complete font's gvar data lands next to the limit
+    /// of short (divided-by-two) offsets, padding included or not
+    #[serde(default)]
+    pub gvar_len_adjust: Option<(u32, u32)>,
 }
 
 /// Everything of a minimal CFF / CFF2 table that precedes the charstrings INDEX (which the IFT
@@ -236,8 +240,9 @@ impl World {
     /// Data of glyph `gid` in `table` in the complete font (alt != 0: a disagreeing variant).
     pub fn glyph_data(&self, table: &Tag4, gid: u32, alt: u8) -> Vec<u8> {
         let mut r = Rng::new(mix(mix(self.data_seed, crate::core::rng::fnv(table)), gid as u64));
-        let forced = match self.len_adjust {
-            Some((g, l)) if g == gid && *table == self.outline_tag() => Some(l as usize),
+        let forced = match (self.len_adjust, self.gvar_len_adjust) {
+            (Some((g, l)), _) if g == gid && *table == self.outline_tag() => Some(l as usize),
+            (_, Some((g, l))) if g == gid && *table == GVAR => Some(l as usize),
             _ => None,
         };
         let len = if let Some(l) = forced {
@@ -1225,7 +1230,7 @@ pub fn gen_world(rng: &mut Rng) -> World {
     let r0 = g.version(0, 0, has_gvar, two);
     let r1 = if two { Some(g.version(0, 1, has_gvar, true)) } else { None };
     let (versions, patches) = (g.versions, g.patches);
-    let mut w = World { n_glyphs, loca_long, has_gvar, gvar_long, data_seed, base_gids, big_gids, opaque, versions, roots: [Some(r0), r1], patches, carrier, cff_off_size0: 1, len_adjust: None, sim_codec: false, stale_base: false };
+    let mut w = World { n_glyphs, loca_long, has_gvar, gvar_long, data_seed, base_gids, big_gids, opaque, versions, roots: [Some(r0), r1], patches, carrier, cff_off_size0: 1, len_adjust: None, sim_codec: false, stale_base: false, gvar_len_adjust: None };
     if w.carrier != 0 {
         let tag = w.outline_tag();
         for p in w.patches.iter_mut() {
@@ -1266,6 +1271,33 @@ pub fn gen_world(rng: &mut Rng) -> World {
                         w.cff_off_size0 = if *limit == 254 { 1 } else { w.cff_off_size0.min(2).max(need) };
                     }
                 }
+            }
+        }
+    }
+    if w.carrier == 0 && w.has_gvar && rng.chance(1, 12) {
+        // gvar at the widening threshold: one wildcard glyph-keyed entry whose patch supplies the gvar data of every
+        // glyph missing from the base, sized so that the complete table's data is within a few bytes of 2 * 65535 -
+        // below it without the pad bytes of odd-length data and above it with them, or just on either side
+        let delta = *rng.pick(&[-9i64, -6, -4, -3, -2, -1, 0, 1, 2]);
+        let missing: Vec<u32> = (0..w.n_glyphs).filter(|g| !w.base_gids.contains(g)).collect();
+        if let (Some(r0), Some(&adj)) = (w.roots[0], missing.last()) {
+            let others: usize = (0..w.n_glyphs).filter(|g| *g != adj).map(|g| w.glyph_data(&GVAR, g, 0).len()).sum();
+            if w.versions[r0].table_format == 2 && !w.versions[r0].entries.is_empty() && others + 16 < 131070 {
+                let mut e = w.versions[r0].entries[0].clone();
+                e.cps.clear();
+                e.cp_mode = 0;
+                e.features.clear();
+                e.design.clear();
+                e.children.clear();
+                e.ignored = false;
+                e.format = 3;
+                w.patches.push(Patch::Glyph { gids: missing.clone(), tables: vec![GVAR], wide: false, alt: 0 });
+                e.patch = w.patches.len() - 1;
+                w.versions[r0].entries = vec![e];
+                w.versions[r0].default_format = 3;
+                w.roots[1] = None;
+                w.gvar_long = false;
+                w.gvar_len_adjust = Some((adj, (131070i64 + delta - others as i64) as u32));
             }
         }
     }
